@@ -46,15 +46,22 @@ class C12(RunProp):
                     vals.append([p[0], 1] if p[0] == "c" else [p[0], {"l": [rng.randint(0, 4) for _ in range(n)]}])
                     if p[0] != "c":
                         mo.append(p[0])
+                map_err = rng.choice(["raise", "continue"])
+                if a_node["body"]["b"] == "failGe":
+                    # several failing items with their own errors, bounded worker pool: a failure must not end the map while items are in flight
+                    n = rng.randint(3, 5)
+                    vals = [[k, ({"l": rng.sample(range(0, 8), n)} if k == "x" else ({"l": [rng.randint(0, 4) for _ in range(n)]} if k in mo else v))] for k, v in vals]
+                    map_err = "raise" if rng.random() < 0.7 else map_err
                 for runner in ("sync", "async"):
-                    yield {"kind": "map", "program": inner, "values": vals, "mapOver": mo, "mode": "zip", "mapErr": rng.choice(["raise", "continue"]),
-                           "cfg": {}, "runner": runner, "seed": rng.randint(0, 10**6), "yielding": runner == "async" and rng.random() < 0.5}
+                    yield {"kind": "map", "program": inner, "values": vals, "mapOver": mo, "mode": "zip", "mapErr": map_err,
+                           "cfg": {}, "runner": runner, "seed": rng.randint(0, 10**6), "yielding": runner == "async" and rng.random() < 0.5,
+                           "k": rng.choice([None, None, 2, 3]) if runner == "async" else None}
 
     def impl(self, case: dict) -> Any:
         ctl = sched.Controller("random", case["seed"]) if case["runner"] == "async" else None
         if case["kind"] == "map":
             o = impl.map_case(case["program"], case["values"], case["mapOver"], case["mode"], case["mapErr"], case["cfg"], case["runner"], ctl=ctl, record_events=True,
-                              yielding_recorder=bool(case.get("yielding")))
+                              yielding_recorder=bool(case.get("yielding")), max_concurrency=case.get("k"))
             o["status"] = "build-error" if o.get("status") == "build-error" else ("failed" if o["raised"] is not None else "completed")
             return o
         return impl.run_case(case["program"], None, case["values"], case["cfg"], case["runner"], record_events=True, ctl=ctl,
